@@ -105,5 +105,10 @@ func runC02() {
 				c02Scenario(s, i, after, extra, r.Fork())
 			}
 		}
+		// transactions with a pre-history (failed statements, lost rollbacks, a resolver that met them before): c02hist.go
+		for i := 0; i < 3; i++ {
+			historyScenario(r.Fork())
+			rec.Count("c02:family:history")
+		}
 	}
 }
